@@ -783,7 +783,7 @@ func healthScenario(s *verifsim.Sim) {
 			for i, old := range w.nodes {
 				n := &hNode{i: i, addr: old.addr}
 				n.d = componentdialer.NewDialer(nopDialer{}, opt, componentdialer.InstanceOption{DisableCheck: true},
-					&componentdialer.Property{Property: D.Property{Name: fmt.Sprintf("n%d'", i), Address: n.addr, Protocol: "trojan"}})
+					&componentdialer.Property{Property: D.Property{Name: fmt.Sprintf("n%d", i), Address: n.addr, Protocol: "trojan"}})
 				newNodes = append(newNodes, n)
 			}
 			defer func() {
@@ -792,47 +792,91 @@ func healthScenario(s *verifsim.Sim) {
 				}
 			}()
 			var newGroups []*hGroup
-			var fallbacks []ob.ReloadSelectionFallback
 			for gi, sp := range gspecs {
-				g := mkGroup(gi, sp.members, w.groups[gi].policy, core2, newNodes, sp.offsets)
-				newGroups = append(newGroups, g)
-				fallbacks = append(fallbacks, g.g.CaptureReloadSelectionFallback())
+				newGroups = append(newGroups, mkGroup(gi, sp.members, w.groups[gi].policy, core2, newNodes, sp.offsets))
 			}
 			defer func() {
 				for _, g := range newGroups {
 					_ = g.g.Close()
 				}
 			}()
-			for i, old := range w.nodes {
-				newNodes[i].d.RestoreHealthSnapshot(old.d.ReloadHealthSnapshot())
+			// the production hand-over: ControlPlane.InheritDialerHealthFrom matches groups and nodes by
+			// name, restores each node's snapshot and keeps a selection floor per group
+			cpOld, cpNew := &ControlPlane{}, &ControlPlane{}
+			for _, g := range w.groups {
+				cpOld.outbounds = append(cpOld.outbounds, g.g)
+			}
+			for _, g := range newGroups {
+				cpNew.outbounds = append(cpNew.outbounds, g.g)
+			}
+			if !cpNew.InheritDialerHealthFrom(cpOld) {
+				s.Failf("reload-handover-state", "InheritDialerHealthFrom found no node of the previous generation although every node exists in both")
+				return
+			}
+			// (1) the last known state is handed over: nobody alive before is dead now, and a node
+			// that was dead is alive now only as the floor of a group that had no alive member
+			inGroup := map[int]bool{}
+			for _, g := range w.groups {
+				for _, m := range g.members {
+					inGroup[m] = true
+				}
 			}
 			for i, old := range w.nodes {
+				if !inGroup[i] {
+					continue // a node of no group takes no part in the hand-over
+				}
 				for _, nt := range w.types {
-					if got, want := newNodes[i].d.MustGetAlive(nt), old.d.MustGetAlive(nt); got != want {
-						s.Failf("reload-handover-state", "new generation node n%d %s alive=%v, previous generation %v", i, nt.String(), got, want)
+					was, is := old.d.MustGetAlive(nt), newNodes[i].d.MustGetAlive(nt)
+					if was && !is {
+						s.Failf("reload-handover-state", "node n%d %s was alive in the previous generation and is not alive after the hand-over", i, nt.String())
 						return
+					}
+					if !was && is {
+						legit := false
+						for _, g := range w.groups {
+							member, anyAlive := false, false
+							for _, m := range g.members {
+								if m == i {
+									member = true
+								}
+								if w.nodes[m].d.MustGetAlive(nt) {
+									anyAlive = true
+								}
+							}
+							if member && !anyAlive {
+								legit = true
+							}
+						}
+						if !legit {
+							s.Failf("reload-handover-state", "node n%d %s was not alive in the previous generation, is alive after the hand-over, and is in no group that needed a selection floor", i, nt.String())
+							return
+						}
 					}
 				}
 			}
-			for gi, g := range newGroups {
-				g.g.EnsureReloadSelectionFloor(fallbacks[gi])
-			}
+			// (2) every non-empty group keeps at least one selectable node
 			for gi, g := range newGroups {
 				if !needsAliveState(g.g.GetSelectionPolicy()) {
 					continue
 				}
 				for _, nt := range w.types {
 					if set := g.g.MustGetAliveDialerSet(nt); set == nil || set.Len() < 1 {
-						s.Failf("reload-selection-floor", "after reload hand-over group g%d has no selectable node for %s", gi, nt.String())
+						shared := ""
+						for _, m := range g.members {
+							for gj, h := range newGroups {
+								if gj == gi {
+									continue
+								}
+								for _, m2 := range h.members {
+									if m2 == m {
+										shared = "@node-shared-with-another-group"
+									}
+								}
+							}
+						}
+						s.Failf("reload-selection-floor"+shared, "after reload hand-over group g%d (members %v) has no selectable node for %s", gi, g.members, nt.String())
 						return
 					}
-					revived := 0
-					for _, m := range g.members {
-						if newNodes[m].d.MustGetAlive(nt) && !w.nodes[m].d.MustGetAlive(nt) {
-							revived++
-						}
-					}
-					_ = revived
 				}
 			}
 		})
